@@ -129,7 +129,14 @@ class Graph:
 
     def write(self, path, **kw):
         text = "\n".join(self.lines(**kw)) + "\n"
-        if path.endswith(".gz"):
+        rng = kw.get("rng")
+        if path.endswith(".gz") and rng is not None and rng.random() < 0.5:
+            # a multi-member gzip file (what bgzip writes, or concatenated gzip streams) is valid gzip
+            from vf import bgzf
+            bgzf.write_bgzf(path, text.encode(), rng=rng, layout=rng.choice(["tiny", "line_start", "standard"]))
+            self.gz_members = "multi"
+        elif path.endswith(".gz"):
+            self.gz_members = "single"
             with gzip.open(path, "wt") as f:
                 f.write(text)
         else:
